@@ -79,22 +79,27 @@ def fit_problems(seed=0, rows=8, n_sensors=2, k=1):
     return problems, info
 
 
-def transform_problems(seed=0, rows=5, n_sensors=2, k=1, k_edit=None):
-    """transform / mahalanobis / score vs running the exported filter by hand (predict dt=0.1, sensors in key order)."""
+def transform_problems(seed=0, rows=5, n_sensors=2, k=1, k_edit=None, integer_data=False):
+    """transform / mahalanobis / score vs running the exported filter by hand (predict dt=0.1, sensors in key order).
+    integer_data: the same check on a data matrix of INTEGER dtype (a finite data matrix like any other; the by-hand run uses its values as floats)."""
     import math
 
     py, ui, est, info = simple_adapter(seed, n_sensors, k, {"innovation_filtering": k_edit})
     X = data_for(info, rows, seed)
+    Xin = X
+    if integer_data:
+        Xin = np.rint(X * 3).astype(np.int64)
+        X = Xin.astype(float)
     problems = []
     before = snapshot(est)
     try:
-        T = est.transform(X)
-        T2 = est.transform(X)
-        M = est.mahalanobis(X)
-        score, expl = est.score(X, explain_score=True)
-        score2 = est.score(X)
+        T = est.transform(Xin)
+        T2 = est.transform(Xin)
+        M = est.mahalanobis(Xin)
+        score, expl = est.score(Xin, explain_score=True)
+        score2 = est.score(Xin)
     except Exception as e:
-        return [f"{type(e).__name__}: {(str(e).splitlines() or [''])[0][:160]}"], info
+        return [f"{'integer-typed data matrix: ' if integer_data else ''}{type(e).__name__}: {(str(e).splitlines() or [''])[0][:160]}"], info
     if snapshot(est) != before:
         problems.append("transform/mahalanobis/score changed the estimator's parameters")
     ekf = est.export_python()
